@@ -5,6 +5,12 @@ HERE = os.path.dirname(os.path.dirname(os.path.abspath(__file__)))
 PY = "/venv/bin/python -B"
 CHECKS = {
  # id: (category, technique, level text, note, design ref)
+ "C01": ("exploration", "runtime differential against an independent reference Logix target (value/type oracle over the target's memory image)",
+         "The real LogixDriver uploads randomly generated controller projects from an independent reference target and reads tags through every documented request shape; each returned Tag is compared with the reference interpretation of the target's memory. Ten controller configurations (firmware generations, Micro800, 4000/500-byte connections) and target-chosen fragment sizes are cycled; element counts are aimed at the byte windows around the connection size; the transport path actually taken (plain / multi-service / fragmented) is read from the target's log.",
+         "Reference target + project model per DESIGN.md 4.0 and Appendix A; bounded project sizes (<= 12 kB per tag, depth <= 3).", "4 C01"),
+ "C02": ("exploration", "runtime memory-diff and write-journal monitor in the reference Logix target, plus read-back through the driver",
+         "Before every write() call the whole controller memory is snapshotted; after it every byte is compared with the reference expectation (addressed bytes = reference encoding, don't-care bytes masked, everything else unchanged), the target's journal of executed write services is matched one-to-one against the successful requests (write / tiling fragments / exact-width read-modify-write touching only requested bits) and the address is read back.",
+         "Overlapping requests of one call are judged at journal level only.", "4 C02"),
  "C06": ("exploration", "runtime round-trip monitor over a generated type grammar (stream position + value equality oracles)",
          "decode(encode(v)) == v, exact stream consumption with trailing junk, and dict-vs-sequence agreement are observed for every value of the 8/16-bit types, boundary/random values of wider types, strings at all prefix limits and thousands of generated nested Array/Struct/StructTag types plus the identity, date, STRINGN and STRINGI constructors.",
          "Domains as documented (docs/getting_started.rst); equality at stored precision; type grammar bounded to depth 3 and 4 KiB.", "4 C06"),
